@@ -20,6 +20,18 @@ P = {
    note=TB + " Range<Data> with Int/Empty values stands for every CellType; ranges of >= 2^32 cells excluded by precondition.",
    technique="Coq proof (induction over operation histories, flat-index lemmas) + extracted-model correspondence",
    design_ref="5/C05"),
+ "C07": dict(claimed=True,
+   text="Partial by nature. Coq theorems over the reader state machine (Reader.v): the answer of a call after ANY history is the "
+        "file's answer for that call under the header-row option in force (C07_history_pure, induction over the op list), options "
+        "are reversible, read calls never change the option; the owned range is the borrowed one mapped cell by cell (rect, "
+        "get_value at every position, rows, Wf), worksheet_range_at is the n-th name, an unknown name never resolves to another "
+        "sheet. The runtime state that could break purity (zip cursor, caches) is not in the model: it is covered by a metamorphic "
+        "correspondence run — random call histories on one opened workbook against freshly opened workbooks with the option the "
+        "extracted model says is in force — plus direct checks of range/ref/at/worksheets()/unknown-name/auto-detection agreement.",
+   note=TB + " The per-format file semantics is a parameter of the model (instantiated by the other properties' sheet models); "
+        "workbooks exercised are the repository fixtures plus generated files.",
+   technique="Coq proof (state-machine induction; map over Range) + metamorphic correspondence through the public API",
+   design_ref="5/C07"),
 }
 REASON_TODO = "not claimed yet: model and theorems for this property are still being built (see DESIGN.md section 9)"
 
